@@ -50,6 +50,12 @@ CHECKS = {
         text="TLC proves LineageSound (cut within the parent, names the last message at or before it, parent untouched) on every reachable state and generates the predicted outcome of every selector class in every state; the real store must answer the same, add bytes only for the new thread (created@0, lineage@1) and a handoff's summary must be readable afterwards.",
         note="Exhaustive within MaxFrames/MaxOps; artifact readability = blob file exists under .rip/artifacts/blobs.",
         ref="4 C10"),
+    "C15": dict(
+        engine="Sse",
+        technique="TLA+ specs SseLines (SseDecoder::push/finish transcribed) and Utf8 (push_bytes carry transcribed) model-checked with TLC over all streams x all partitions; every stream replayed on the real decoder under token-boundary, single-byte and byte-at-a-time partitions and through real runs with controlled TCP chunking",
+        text="TLC proves ChunkInvariant for every symbol stream up to length 5 (7 symbols) and every byte-class stream up to length 6 under EVERY partition, and MatchesLossy for the byte stage; each stream is decoded by the real SseDecoder/EventFrameMapper under all token-boundary partitions, every single byte cut and one byte at a time, and must equal the whole-stream decode and the model's reference; byte-class and framing streams (CRLF, multi-line data, comments, event names, invalid JSON, [DONE], missing final blank line, multi-byte text) are sent through real session runs with every cut set and must give the same provider/text frames with contiguous seqs.",
+        note="Value fidelity is represented by byte classes (ascii, 2/3/4-byte lead, continuation, never-valid); the TCP chunk boundaries are assumed to reach reqwest as written (verified on this image).",
+        ref="4 C15"),
 }
 
 NOT_YET = {}
